@@ -17,6 +17,8 @@ import (
 	"time"
 
 	"go.nanomsg.org/mangos/v3"
+	"go.nanomsg.org/mangos/v3/protocol"
+	"go.nanomsg.org/mangos/v3/protocol/bus"
 	"go.nanomsg.org/mangos/v3/verifharness/fixture"
 	"go.nanomsg.org/mangos/v3/verifharness/stats"
 	"go.nanomsg.org/mangos/v3/verifharness/vt"
@@ -47,6 +49,7 @@ type scenario struct {
 	CloseAt   int    `json:"close_at"`   // after this many steps (len = at the end)
 	CloseWhat string `json:"close_what"` // dialer | socket
 	CloseHang bool   `json:"close_during_attempt"`
+	RejectBy  string `json:"reject_by"` // "" / "hook": closed in the Attaching callback; "protocol": the protocol's AddPipe refuses
 	RSeed     string `json:"rseed"`
 }
 
@@ -64,7 +67,10 @@ func slackFor(upper time.Duration) time.Duration { return 40*time.Millisecond + 
 func run(sc scenario) (vs []verdict, harnessErr error) {
 	r := time.Duration(sc.R) * time.Millisecond
 	max := time.Duration(sc.Max) * time.Millisecond
-	sock := fixture.New("bus")
+	var mu sync.Mutex
+	rejectNext := false
+	ref := &refuser{Protocol: bus.NewProtocol(), mu: &mu}
+	sock := protocol.MakeSocket(ref)
 	defer sock.Close()
 	ep := vt.New()
 	defer ep.Forget()
@@ -73,8 +79,6 @@ func run(sc scenario) (vs []verdict, harnessErr error) {
 	}
 
 	// hook: reject plan + attach tracking
-	var mu sync.Mutex
-	rejectNext := false
 	attached, detached := 0, 0
 	cv := sync.NewCond(&mu)
 	sock.SetPipeEventHook(func(ev mangos.PipeEvent, p mangos.Pipe) {
@@ -121,7 +125,11 @@ func run(sc scenario) (vs []verdict, harnessErr error) {
 				return nil, mangos.ErrConnRefused
 			case "reject":
 				mu.Lock()
-				rejectNext = true
+				if sc.RejectBy == "protocol" {
+					ref.next = true
+				} else {
+					rejectNext = true
+				}
 				mu.Unlock()
 				p := ep.NewPipe()
 				pipes <- p
@@ -244,7 +252,7 @@ func run(sc scenario) (vs []verdict, harnessErr error) {
 			lastWasRefusal = false
 			p := <-pipes
 			if !p.WaitClosed(3 * time.Second) {
-				add(false, "rejected-pipe-open", "a pipe rejected in Attaching was not closed")
+				add(false, "rejected-pipe-open", "a pipe rejected (%s) was not closed", sc.RejectBy)
 			}
 		case "drop", "stay":
 			p := <-pipes
@@ -318,8 +326,27 @@ func run(sc scenario) (vs []verdict, harnessErr error) {
 	return vs, nil
 }
 
+// refuser lets the protocol itself refuse the next pipe (a rejection at the protocol stage).
+type refuser struct {
+	protocol.Protocol
+	mu   *sync.Mutex
+	next bool
+}
+
+func (r *refuser) AddPipe(p protocol.Pipe) error {
+	r.mu.Lock()
+	rej := r.next
+	r.next = false
+	r.mu.Unlock()
+	if rej {
+		return mangos.ErrProtoState
+	}
+	return r.Protocol.AddPipe(p)
+}
+
 func genScenario(t *rapid.T) scenario {
 	sc := scenario{Test: "TestC14", RSeed: os.Getenv("VERIF_RSEED")}
+	sc.RejectBy = rapid.SampledFrom([]string{"hook", "protocol"}).Draw(t, "rejectBy")
 	sc.R = rapid.SampledFrom([]int{5, 10, 20, 50}).Draw(t, "r")
 	sc.Max = sc.R * rapid.SampledFrom([]int{0, 1, 2, 8, 40}).Draw(t, "maxMul")
 	sc.Asynch = rapid.Bool().Draw(t, "asynch")
@@ -413,7 +440,7 @@ func TestC14(t *testing.T) {
 			}
 			stats.Eval()
 			faults := 0
-			canon := fmt.Sprintf("%d|%d|%v|%d|%s|%v|", sc.R, sc.Max, sc.Asynch, sc.CloseAt, sc.CloseWhat, sc.CloseHang)
+			canon := fmt.Sprintf("%d|%d|%v|%d|%s|%v|", sc.R, sc.Max, sc.Asynch, sc.CloseAt, sc.CloseWhat, sc.CloseHang) + sc.RejectBy
 			for i, s := range sc.Steps {
 				if i < sc.CloseAt && s.Kind != "stay" {
 					faults++
